@@ -92,12 +92,12 @@ theorem SubsOk.state {m m' : State} {js : List SubMon} (h : SubsOk m js)
 /-! ### assignment to a state variable -/
 
 /-- the monitor after `set x val` changed variable x -/
-def Mon.assigned (j : Mon) (x : Nat) (val : Int) : Mon :=
+def Mon.assigned (j : Mon) (x : Nat) (val : Val) : Mon :=
   { j with cur := j.cur.set x (some val), lastChange := j.lastChange.set x j.now }
 
 /-- assignment that neither triggers nor (newly) defers: the variable is not evented or a timer is already pending;
     `g` is the rest of the change to variable x (identity, or arming the timer). -/
-theorem assign_rel (m : State) (j : Mon) (x : Nat) (val : Int) (v0 : Var) (g : Var → Var)
+theorem assign_rel (m : State) (j : Mon) (x : Nat) (val : Val) (v0 : Var) (g : Var → Var)
     (h : Rel m j) (hn : j.now = m.now) (hx : m.vars[x]? = some v0)
     (hg : ∀ v, (g v).evented = v.evented ∧ (g v).rate = v.rate ∧ (g v).value = v.value ∧ (g v).lastSent = v.lastSent)
     (hd : ∀ f, (g { v0 with value := some val }).deferred = some f →
@@ -154,7 +154,7 @@ theorem credit_after_trigger (js : List SubMon) (k : Nat) (sm : SubMon)
     exact Nat.succ_pos _
 
 /-- assignment to an evented variable outside its moderation interval: trigger at once, fan out -/
-theorem assign_trigger_rel (m : State) (j : Mon) (x : Nat) (val : Int) (v0 : Var)
+theorem assign_trigger_rel (m : State) (j : Mon) (x : Nat) (val : Val) (v0 : Var)
     (h : Rel m j) (hn : j.now = m.now) (hx : m.vars[x]? = some v0)
     (hev : v0.evented = true) (hdn : v0.deferred = none) (hnext : v0.lastSent + v0.rate ≤ m.now) :
     Rel (trigger { m with vars := m.vars.modify x (fun v => { v with value := some val }) } x).1
@@ -234,7 +234,7 @@ theorem assign_trigger_rel (m : State) (j : Mon) (x : Nat) (val : Int) (v0 : Var
     obtain ⟨_, hl⟩ := hcv s hs sm hsm
     rw [hl, hm2cur, ← hvars, List.getElem?_map, hv]; rfl
 
-theorem assign_none (m : State) (j : Mon) (x : Nat) (val : Int) (hcur : j.cur = m.vars.map (·.value))
+theorem assign_none (m : State) (j : Mon) (x : Nat) (val : Val) (hcur : j.cur = m.vars.map (·.value))
     (hx : m.vars[x]? = none) : j.assign x val = j := by
   have hc : j.cur[x]? = none := by rw [hcur, List.getElem?_map, hx]; rfl
   have hlen : ¬ x < j.cur.length := by
@@ -242,13 +242,13 @@ theorem assign_none (m : State) (j : Mon) (x : Nat) (val : Int) (hcur : j.cur = 
   unfold Mon.assign
   rw [if_neg (by rw [hc]; exact fun e => by cases e), if_neg hlen]
 
-theorem assign_same (m : State) (j : Mon) (x : Nat) (val : Int) (v0 : Var) (hcur : j.cur = m.vars.map (·.value))
+theorem assign_same (m : State) (j : Mon) (x : Nat) (val : Val) (v0 : Var) (hcur : j.cur = m.vars.map (·.value))
     (hx : m.vars[x]? = some v0) (hval : v0.value = some val) : j.assign x val = j := by
   have hc : j.cur[x]? = some v0.value := by rw [hcur, List.getElem?_map, hx]; rfl
   unfold Mon.assign
   rw [if_pos (by rw [hc, hval])]
 
-theorem assign_changed (m : State) (j : Mon) (x : Nat) (val : Int) (v0 : Var) (hcur : j.cur = m.vars.map (·.value))
+theorem assign_changed (m : State) (j : Mon) (x : Nat) (val : Val) (v0 : Var) (hcur : j.cur = m.vars.map (·.value))
     (hx : m.vars[x]? = some v0) (hval : ¬ v0.value = some val) : j.assign x val = j.assigned x val := by
   have hc : j.cur[x]? = some v0.value := by rw [hcur, List.getElem?_map, hx]; rfl
   have hlen : x < j.cur.length := (List.getElem?_eq_some_iff.mp hc).1
@@ -257,7 +257,7 @@ theorem assign_changed (m : State) (j : Mon) (x : Nat) (val : Int) (v0 : Var) (h
   unfold Mon.assign
   rw [if_neg hne, if_pos hlen]; rfl
 
-theorem setVar_ok (m : State) (j : Mon) (x : Nat) (val : Int) (h : Rel m j) (hn : j.now = m.now) :
+theorem setVar_ok (m : State) (j : Mon) (x : Nat) (val : Val) (h : Rel m j) (hn : j.now = m.now) :
     Rel (setVar m x val).1 ((j.beginOp (.set x val)).obsRun (setVar m x val).2) := by
   show Rel (setVar m x val).1 ((j.assign x val).obsRun (setVar m x val).2)
   unfold setVar
